@@ -65,7 +65,7 @@ def gen_case(rng, tier, i):
         nk = rng.randint(0, 4)
         decl = {f"k{j}": rng.choice(TYPES) for j in range(nk)}
         shape = rng.choice(["ok", "ok", "missing", "extra", "wrongtype", "nondict", "subclass", "none_value", "renamed", "empty",
-                            "reordered", "reordered_swapped", "defaultdict"])
+                            "reordered", "reordered_swapped", "defaultdict", "reused_then_mutated"])
         return {"fam": "meta", "decl": decl, "shape": shape, "check": rng.random() < 0.7, "timed": rng.random() < 0.5,
                 "ts": rng.choice([0, 1.5, ["dur", 2.0, "h"], "bad", None])}
     nt, nl = rng.randint(2, 4), rng.randint(2, 5)
@@ -336,6 +336,19 @@ def _meta(case, ctx):
         fac = {"int": int, "float": float, "str": str, "bool": bool, "list": list}[decl[keys[0]]]
         first = payload.pop(keys[0])
         payload = collections.defaultdict(fac, {**payload, "zz_other": first})
+    elif shape == "reused_then_mutated" and keys:
+        # the same dict object was a conforming payload of an earlier event of this type and has been changed since
+        try:
+            Event(et, payload, True)
+            TimedEvent(1.0, et, payload, True)
+        except Exception:
+            pass
+        wrong = {"int": "s", "float": "s", "str": 5, "bool": "s", "list": 5, "Duration": 5.0}
+        if len(keys) % 2:
+            payload[keys[-1]] = wrong[decl[keys[-1]]]
+        else:
+            del payload[keys[0]]
+            payload["zz_other"] = 1
     elif shape == "reordered":
         # the same conforming payload with its keys inserted in reverse order: a dict is a dict
         payload = {k: payload[k] for k in reversed(keys)}
